@@ -33,6 +33,11 @@ def routed : List Instance :=
 /-- the lines `Watch` sends: the C01 model with `cmds := C14.build` -/
 def svcLines : List Str := watchOnce keyPair (cmdsOf env pf cfg) cfg.pfx st strict checks catalog
 
+/-- the lines `Watch` sends in a round in which the catalog lookups of the services `fails` selects fail
+(`serviceConfig` returns nil for them) -/
+def svcLinesF (fails : Str → Bool) : List Str :=
+  watchOnceF fails keyPair (cmdsOf env pf cfg) cfg.pfx st strict checks catalog
+
 /-- the text `Watch` sends -/
 def svcText : Str := joinLines (svcLines env pf cfg st strict checks catalog)
 
